@@ -384,9 +384,9 @@ def run(chk):
     pre = [d for d in pre if d]
     if pre and not from_value:
         pre = []      # escaping the token text cannot tell the delimiters from the content
-    domain = domain + pre
+    own = list(domain)
     loop_form = False
-    if not domain:
+    if not own:
         # single-pass form: `for c in s.chars() { match c { '\n' => out.push_str("\\n"), .., c => out.push(c) } }`
         chk.rule('C17-utf8', 'escape_str walks the characters of the literal, not its UTF-8 bytes: a byte pushed back with `b as char` turns every non-ASCII character into two or three '
                              'Latin-1 characters, so the script prints other text than the bytecode')
@@ -415,9 +415,11 @@ def run(chk):
                         'transpiled script' % T.show(casts[0])[:30], TR, casts[0].get('l'))
             else:
                 chk.ok('C17-utf8', 'chars')
+    own_n = len(domain)
+    domain = domain + pre
     chk.floor('escape_str replacements', len(domain), 3)
     # method chains are nested receiver-first: the innermost receiver is applied first; T.calls yields outermost first
-    order_applied = (list(reversed(pre)) + list(reversed(domain[:len(domain) - len(pre)]))) if not loop_form else ['\\'] + domain      # a single pass cannot double an escape
+    order_applied = (list(reversed(pre)) + list(reversed(domain[:own_n]))) if not loop_form else (list(reversed(pre)) or ['\\']) + domain      # a single pass cannot double an escape
     for ch, why in UNSAFE.items():
         inst = repr(ch)
         if ch not in produced and '\x01' not in produced:
